@@ -675,7 +675,14 @@ fn scopes_case(lets: &[(String, LE)], decls: &[LDecl], fors: &[LFor]) -> Case {
     let (names, tc, tr, static_any) = match res {
         Ok(Ok(x)) => x,
         Ok(Err(e)) => { c.tags.push("scopes-parse-error".into()); c.show = format!("{}\n{}", src, e); return c; }
-        Err(_) => (lets.iter().map(|l| l.0.clone()).collect(), "(panic)".into(), "(panic)".into(), false),
+        Err(_) => {
+            // a panic somewhere between parse and transform: reported on the implementation, no model comparison
+            c.tags.push("scopes-panic".into());
+            c.show = src.clone();
+            c.sig = Some("panic:typed-program".into());
+            c.impl_violation = Some("a stage between parse and transform panics on a program of the scopes stream".into());
+            return c;
+        }
     };
     let it_sx = |it: &LIt| format!("(it ({}) {} {})", it.vars.iter().map(|v| sx::q(v)).collect::<Vec<_>>().join(" "), if it.tuple { "tuple" } else { "single" }, le_sx(&it.over));
     let its_sx = |its: &Vec<LIt>| its.iter().map(|i| format!(" {}", it_sx(i))).collect::<String>();
@@ -735,6 +742,62 @@ fn lets_cases(r: &mut Rng, n: usize) -> Vec<Case> {
         c.tags.push("lets:underscore-regression".into());
         out.push(c);
     }
+    // unary minus of a Boolean is a Number (`get_type` and the value agree): using it where a Boolean is required is rejected - deterministic
+    {
+        let t = || LE::Lit(LV::B(true));
+        let f = || LE::Var("flag".into());
+        let neg = |e: LE| LE::Un("neg", Box::new(e));
+        let not = |e: LE| LE::Un("not", Box::new(e));
+        let bin = |op: &'static str, a: LE, b: LE| LE::Bin(op, Box::new(a), Box::new(b));
+        let flag = ("flag".to_string(), LE::Lit(LV::B(false)));
+        for (i, e) in [
+            bin("and", neg(f()), f()), bin("and", f(), neg(f())), bin("or", neg(t()), f()), bin("iff", f(), neg(f())), bin("implies", neg(f()), t()), bin("xor", neg(t()), neg(f())),
+            not(neg(f())), not(neg(t())), neg(neg(f())), bin("and", neg(bin("and", f(), t())), t()), bin("add", LE::Lit(LV::I(3)), neg(f())), neg(not(f())),
+            LE::Call("range".into(), vec![LE::Lit(LV::I(0)), LE::Lit(LV::I(2)), neg(t())]), LE::Call("range".into(), vec![LE::Lit(LV::I(0)), LE::Lit(LV::I(2)), neg(f())]),
+            LE::Call("len".into(), vec![LE::Call("range".into(), vec![LE::Lit(LV::I(0)), LE::Lit(LV::I(2)), not(neg(f()))])]),
+            bin("mul", neg(f()), LE::Lit(LV::F(2.5))),
+        ].into_iter().enumerate() {
+            let mut c = lets_case(&[flag.clone(), ("k".to_string(), e)]);
+            c.tags.push("lets:negated-boolean".into());
+            c.tags.push(format!("lets:negated-boolean:{}", i));
+            out.push(c);
+        }
+    }
+    // multi-index access with each index position in turn out of range (by one, by many, negative, fractional, Boolean) on a
+    // matrix, a jagged array, a 3-level array and a mixed-row matrix: `IterableKind::read` against `readV` - deterministic
+    {
+        let ints = |xs: &[i64]| LV::Arr(xs.iter().map(|x| LV::I(*x)).collect());
+        let data: Vec<(String, LE)> = vec![
+            ("M".into(), LE::Lit(LV::Arr(vec![ints(&[1, 2]), ints(&[3, 4])]))),
+            ("J".into(), LE::Lit(LV::Arr(vec![ints(&[1]), ints(&[2, 3]), ints(&[4, 5, 6])]))),
+            ("T".into(), LE::Lit(LV::Arr(vec![LV::Arr(vec![ints(&[1, 2]), ints(&[3])]), LV::Arr(vec![ints(&[4])])]))),
+            ("X".into(), LE::Lit(LV::Arr(vec![ints(&[1, 2]), LV::Arr(vec![LV::S("a".into()), LV::S("b".into())])]))),
+            ("W".into(), LE::Lit(ints(&[7, 8, 9]))),
+        ];
+        let mut accs: Vec<(String, Vec<LE>)> = vec![];
+        for (name, dims) in [("M", vec![2i64, 2]), ("J", vec![3, 1]), ("T", vec![2, 2, 2]), ("X", vec![2, 2])] {
+            for pos in 0..dims.len() {
+                for bad in 0..5 {
+                    let ix: Vec<LE> = (0..dims.len()).map(|p| if p == pos { match bad { 0 => LE::Lit(LV::I(dims[p])), 1 => LE::Lit(LV::I(7)), 2 => LE::Bin("sub", Box::new(LE::Lit(LV::I(0))), Box::new(LE::Lit(LV::I(1)))), 3 => LE::Lit(LV::F(0.5)), _ => LE::Lit(LV::B(true)) } } else { LE::Lit(LV::I(0)) }).collect();
+                    accs.push((name.to_string(), ix));
+                }
+            }
+        }
+        let i = |n: i64| LE::Lit(LV::I(n));
+        for (n, ix) in [("J", vec![i(2), i(3)]), ("J", vec![i(2), i(2)]), ("J", vec![i(0), i(1)]), ("T", vec![i(1), i(1), i(0)]), ("T", vec![i(0), i(1), i(1)]), ("T", vec![i(1), i(0), i(0)]), ("T", vec![i(0), i(2), i(0)]),
+            ("M", vec![i(2), i(2)]), ("W", vec![i(0), i(0)]), ("W", vec![i(3), i(0)]), ("M", vec![i(0), i(0), i(0)]), ("T", vec![i(0), i(0), i(0), i(0)]), ("M", vec![i(1), i(1)]), ("X", vec![i(1), i(1)]), ("X", vec![i(0), i(1)]),
+            ("M", vec![LE::Call("len".into(), vec![LE::Var("W".into())]), i(0)]), ("T", vec![i(1)]), ("T", vec![i(1), i(0)])] {
+            accs.push((n.to_string(), ix));
+        }
+        for (k, (n, ix)) in accs.into_iter().enumerate() {
+            let mut lets = data.clone();
+            lets.push(("k".to_string(), LE::Acc(n, ix)));
+            let mut c = lets_case(&lets);
+            c.tags.push("lets:multi-index-access".into());
+            c.tags.push(format!("lets:multi-index-access:{}", k));
+            out.push(c);
+        }
+    }
     // which names a constant may take (`check_if_reserved_token`)
     for name in ["min", "max", "where", "in", "for", "as", "if", "else", "solve", "true", "false", "Graph", "avg", "abs", "all", "any", "xor", "sum", "prod", "edges", "E", "len", "nodes", "V",
         "neigh_edges", "N", "neigh_edges_of", "N_of", "enumerate", "enum", "range", "zip", "difference", "union", "intersection", "lenn", "Min", "graph", "sumx", "PI", "Infinity", "e", "n_of", "Sum", "ranges"] {
@@ -780,7 +843,14 @@ fn lets_case(lets: &[(String, LE)]) -> Case {
             }
             return c;
         }
-        Err(_) => (vec![], "(panic)".into(), vec![], "(panic)".into(), false),
+        Err(_) => {
+            let mut c = Case::default();
+            c.tags = vec!["stream:where-section".into(), "lets-panic".into()];
+            c.show = src.clone();
+            c.sig = Some("panic:typed-program".into());
+            c.impl_violation = Some("a stage between parse and transform panics on a where section".into());
+            return c;
+        }
     };
     // the kind recorded at the position of every constant's name, in source order
     let kind_list: Vec<String> = names.iter().map(|(name, pos)| kinds.iter().find(|k| k.0 == *pos && &k.1 == name).map(|k| k.2.clone()).unwrap_or_else(|| "?".into())).collect();
